@@ -720,12 +720,26 @@ def tdb_rules(ctx, A):
     regs_ = [(bi, st) for (g_, bi, st) in agg_sites(P, r'type_definition::Region$') if g_ is tdb]
     okn = False
     detn = 'no Region literal for a declared field found'
+    name_tables = []
     for bi, st in regs_:
         d_ = dict(tdb.expr_of_rvalue(st['rv'])[2])
         nm = d_.get('name')
         if nm is None:
             continue
-        rows = value_table(tdb, nm)
+        name_tables.append(value_table(tdb, nm))
+    if not name_tables:
+        # the region is built with the crate's constructors / builders: the `name` of the value that is queued for layout
+        for c_ in tdb.calls(lambda r: r['path'] and r['path'].endswith('Vec::<T, A>::push')):
+            if len(c_['term']['args']) != 2:
+                continue
+            pe = strip(tdb.expr_of_operand(c_['term']['args'][1]))
+            if pe[0] == 'tuple' and len(pe[1]) == 2:
+                reg_ = strip(pe[1][1])
+                if (reg_[0] == 'var' and tdb.local_ty(reg_[1]) == REGION) or (reg_[0] == 'call' and REGION.split('::')[-1] + '::' in reg_[1]):
+                    ft = field_table(tdb, reg_, 'name')
+                    if ft is not None:
+                        name_tables.append(ft)
+    for rows in name_tables:
         somes = [(cs, v) for cs, v in rows if strip(v)[0] == 'agg' and strip(v)[1].endswith('Option::Some')]
         nones = [(cs, v) for cs, v in rows if strip(v)[0] == 'agg' and strip(v)[1].endswith('Option::None')]
         if len(rows) != 2 or len(somes) != 1 or len(nones) != 1:
@@ -755,6 +769,39 @@ def tdb_rules(ctx, A):
         detn = 'Some(%s) iff %s' % (show(val)[:60], [(show(c)[:80], l) for c, l in cs])
     ctx.ob(['C17', 'C01', 'C20'], 'R-EXPR', 'TDB|field-name-kept', okn,
            'a field keeps its declared name unless that name is exactly `_` (then it is an anonymous gap named after its offset later): %s' % detn, where)
+    # the address queued with a field's region is the one its `address` attribute gave, on every path (whatever the field is called)
+    from r_function import attr_assignments
+    addr_locals = {l for lit, assigned, _sp in attr_assignments(tdb) if lit == 'address' for l in assigned if tdb.local_ty(l) == 'std::option::Option<usize>'}
+    qrows, nq = [], 0
+    for c_ in tdb.calls(lambda r: r['path'] and r['path'].endswith('Vec::<T, A>::push')):
+        if len(c_['term']['args']) != 2:
+            continue
+        pe = strip(tdb.expr_of_operand(c_['term']['args'][1]))
+        if pe[0] == 'tuple' and len(pe[1]) == 2 and ('Option<usize>' in str(tdb.local_ty(strip(pe[1][0])[1]) if strip(pe[1][0])[0] == 'var' else '') or True):
+            r_ = strip(pe[1][1])
+            is_reg = (r_[0] == 'var' and tdb.local_ty(r_[1]) == REGION) or (r_[0] == 'agg' and r_[1].endswith('type_definition::Region')) or \
+                (r_[0] == 'call' and 'Region::' in r_[1])
+            if not is_reg:
+                continue
+            nq += 1
+            def chase(v_):
+                v_ = strip(simplify(v_))
+                hops = 0
+                while v_[0] == 'var' and v_[1] not in addr_locals and len(tdb.defs().get(v_[1], [])) == 1 and hops < 4:
+                    v_, hops = strip(simplify(tdb.expr_of_def(tdb.defs()[v_[1]][0]))), hops + 1
+                return v_
+            a0 = chase(pe[1][0])
+            if a0[0] == 'var' and a0[1] in addr_locals:
+                qrows.append(([], a0))
+            elif a0[0] == 'var' and 2 <= len(tdb.defs().get(a0[1], [])) <= 6:
+                # merged from the arms of a branch: every arm must hand on the attribute's value
+                for d_ in tdb.defs()[a0[1]]:
+                    qrows.append(([], chase(tdb.expr_of_def(d_))))
+            else:
+                qrows.append(([], a0))
+    okq = nq == 1 and bool(addr_locals) and bool(qrows) and all(v_[0] == 'var' and v_[1] in addr_locals for cs_, v_ in qrows)
+    ctx.ob(['C01', 'C03', 'C20'], 'R-SLP', 'TDB|queued-address', okq,
+           'the address queued with a field is the value of its `address` attribute on every path (named or `_`): %s' % [(show(v_)[:40], [(show(c)[:40], l) for c, l in cs_]) for cs_, v_ in qrows][:4], where)
     # every function of the type's impl block is built (its types resolved, its address required) — none is filtered out before
     fam_ = [tdb] + [h_ for h_ in method_family(P, tdb) if h_ is not tdb]
     okf = False
@@ -982,7 +1029,7 @@ SEQ_ALLOW = [
 SEQ_PROPS = {
     REGION: ['C01', 'C14', 'C17'], 'grammar::TypeStatement': ['C01', 'C14'], 'semantic::function::Function': ['C04', 'C06', 'C14'], 'grammar::Function': ['C04', 'C05', 'C14'],
     '(std::string::String, isize)': ['C08'], 'grammar::EnumStatement': ['C08'], 'semantic::function::Argument': ['C04', 'C05'], 'grammar::Argument': ['C04', 'C05', 'C18'],
-    'grammar::Attribute': ['C17', 'C18'], 'semantic::types::Backend': ['C14'], 'grammar::Backend': ['C14', 'C18'], 'grammar::ItemPath': ['C11', 'C09'],
+    'grammar::Attribute': ['C17', 'C18', 'C20'], 'semantic::types::Backend': ['C14'], 'grammar::Backend': ['C14', 'C18'], 'grammar::ItemPath': ['C11', 'C09'],
     'semantic::types::ExternValue': ['C09', 'C14'], 'grammar::ItemDefinition': ['C14', 'C09'], 'grammar::ExternValue': ['C14', 'C15'],
 }
 
